@@ -1,6 +1,7 @@
 #![allow(dead_code)]
 //! `simcheck`: deterministic simulation with fault injection for dbus2/zbus.
 mod corpus;
+mod fakebus;
 mod framework;
 mod kernel;
 mod models;
